@@ -15,18 +15,29 @@ THEOREMS = re.findall(r"#print axioms (\S+)", open(__file__.rsplit("/harness/", 
 RULE = ("classes over the serializable fragment (20% with lossy kinds); documents: JSON images of up to 4 valid "
         "instances per class, 4 single-point corruptions of each (wrong JSON type, out-of-bound number, unknown enum "
         "name, missing key, extra key, null, dropped/added array element) and a non-object top level; keep_undefined in "
-        "{True, False, None} x ignore_invalid_additional_properties in {True, False}; oracle = Lean expectedDeser "
-        "(constructor applied to the documented lifting of the document) vs the real Deserializer; non-trivial = "
-        "constraint or nesting; distinct by case hash; plus an oracle-only stream (suites/extras.py, no model counterpart): "
-        "documents of classes over DecimalNumber / Enum by value and by name (plain, IntEnum, Flag, str enums) / date, time "
-        "and formatted-string fields, bare and inside Optional/Array/Deque/Set/Map/Tuple, with one leaf replaced by each of "
-        "12 wrong-type / ill-formatted values: a rejection must be a TypeError or ValueError; plus an oracle-only INHERITANCE stream "
+        "{True, False, None} x ignore_invalid_additional_properties in {True, False}; directed size-bound documents: every sized "
+        "collection kind (Array, Deque, Set, Map, positional Array/Deque) x item kind x (minItems | maxItems | both | maxItems=0) x "
+        "placement (class field, field of a nested class, inside an Array of structures, Map value, under Optional) with well-typed "
+        "documents one below / at / one above each bound; oracle = Lean expectedDeser "
+        "(constructor applied to the documented lifting of the document) vs the real Deserializer; the driver reports for every case "
+        "whether it lies inside the PROVED exact fragment; non-trivial = "
+        "constraint or nesting; distinct by case hash; plus the extras stream (suites/extras.py) over DecimalNumber / Enum by value and "
+        "by name (plain, IntEnum, Flag, str-valued enums, falsy members) / date, time and formatted-string fields, bare and inside "
+        "Optional/Array/Deque/Set/Map/Tuple/nested collections/Optional[Union[X, int]]: the JSON image of valid instances (written down "
+        "independently of the Serializer) and the image with one leaf replaced by each of 36 values (wrong JSON types, ill-formatted "
+        "strings, numbers of several magnitudes incl. epoch-like ints and floats, NaN / Infinity strings, names for values and values for "
+        "names): the Deserializer must accept EXACTLY when the constructor accepts what the document denotes (documented lifting: arrays "
+        "-> list/deque/set/tuple, a by-value enum value -> the member with that value, every other leaf as it is), with an equal "
+        "instance, and reject with TypeError/ValueError only; the cases the Lean model of the extension kinds covers are corresponded "
+        "with it (suite serdex: accept / reject, exception class, result); plus DecimalNumber bound probes (float neighbours of the "
+        "bound); plus an oracle-only INHERITANCE stream "
         "(suites/inheritdeser.py): chains, several bases and diamonds with a field re-declared at any class of the hierarchy; for "
         "JSON-native documents the Deserializer of the most derived class must accept exactly when its constructor does, with an "
         "equal instance")
 ASSUMPTIONS = [
-    "mapper-free; fail-fast mode (the default); AnyOf/OneOf/AllOf/NotField fields are corresponded but have no lifting spec (they need the validation result to choose an option)",
-    "Enum serialization_by_value, DecimalNumber, date/time fields, compact deserialization are not in the model",
+    "mapper-free; fail-fast mode (the default); AnyOf/OneOf/AllOf/NotField fields other than Optional are corresponded but have no lifting spec (they need the validation result to choose an option)",
+    "an array for a Set field that holds values == to each other but of different JSON type (1 / true / 1.0), and AnyOf[DecimalNumber(bounds), Integer] (two options reading the same JSON type) are ambiguous and excluded from the both-directions oracle",
+    "compact deserialization, DateString/TimeString/HostName/IPV4/EmailAddress leaves, a Decimal read from a string and a DateTime read from an epoch integer are not in the Lean model (oracle-only)",
 ]
 
 
@@ -64,7 +75,9 @@ def run_impl(case):
 
 
 def line(case, impl):
-    return None if _x(case) or _ih(case) or _dec(case) else S.line(case, impl)
+    if _x(case):
+        return X.xline(case, impl)
+    return None if _ih(case) or _dec(case) else S.line(case, impl)
 
 
 def tags(case, impl, model):
@@ -74,7 +87,7 @@ def tags(case, impl, model):
         return ["stream:inheritdeser", "inherit:" + case["shape"]] + sorted({f"inherit-ctor:{'ok' if s['ctor'] == 'ok' else 'rejects'}" for s in impl.get("steps", [])})
     if _x(case):
         return ["stream:extras-" + ("image" if case.get("corrupt") is None else "corrupt"), "extras:" + impl.get("out", "skipped"),
-                "extras-ctor:" + impl.get("ctor", "skipped")] + (["extras-exc:" + impl["exc"]] if "exc" in impl else [])
+                "extras-ctor:" + impl.get("ctor", "skipped"), "extras-model:" + ("line" if impl.get("xline") else "oracle-only")] + (["extras-exc:" + impl["exc"]] if "exc" in impl else [])
     return S.tags(case, impl, model)
 
 
@@ -96,7 +109,7 @@ def judge(case, impl, model):
     if _ih(case):
         return None, IH.judge(case, impl)
     if _x(case):
-        return None, X.judge_exact(case, impl)
+        return X.xcorrespond(case, impl, model), X.judge_exact(case, impl)
     msg = S.correspondence(case, impl, model)
     fails = []
     if "unbuildable" in impl or "abstraction_mismatch" in impl or "deser" not in impl:
